@@ -652,7 +652,8 @@ class PrecipitateModel (PrecipitateBase):
                 if self.numberOfElements == 1:
                     if addedIndices is None:
                         #This is very slow to do
-                        self._createLookupBinary(self.pData.temperature[self.pData.n])
+                        #The table is rebuilt at the current temperature, so the recorded equilibrium compositions have to follow
+                        self.pData.xEqAlpha[self.pData.n], self.pData.xEqBeta[self.pData.n] = self._createLookupBinary(self.pData.temperature[self.pData.n])
                     else:
                         self.PSDXalpha[p] = np.concatenate((self.PSDXalpha[p], np.zeros((self.PBM[p].bins+1 - len(self.PSDXalpha[p]),1))))
                         self.PSDXbeta[p] = np.concatenate((self.PSDXbeta[p], np.zeros((self.PBM[p].bins+1 - len(self.PSDXbeta[p]),1))))
